@@ -2402,10 +2402,16 @@ void Validator::ValidatorImpl::validateMathMLElementsChildrenAndSiblings(const X
         auto siblingCount = hasOneOrTwoMathmlSiblings(parentNode, node, component);
 
         if (siblingCount == 1) {
-            // Used with a 'degree' element.
+            // Used within a 'bvar' element (a 'root' element with a degree and no operand is tolerated).
 
-            isSecondMathmlSibling(parentNode, node, component)
-                && hasOneMathmlChild(node, component);
+            if (isSecondMathmlSibling(parentNode, node, component)
+                && hasOneMathmlChild(node, component)
+                && !parentNode->isMathmlElement("bvar")
+                && !mathmlChildNode(parentNode, 0)->isMathmlElement("root")) {
+                addMathmlIssue("Math has a 'degree' element which is neither a child of a 'bvar' element nor a qualifier of a 'root' element.",
+                               Issue::ReferenceRule::MATH_MATHML,
+                               component);
+            }
         } else if (siblingCount == 2) {
             // Used with a 'root' element.
 
